@@ -192,10 +192,32 @@ impl Prop for C05 {
                 workers: 8,
                 build: Build::Normal,
             },
+            Leg {
+                name: "huge",
+                kind: LegKind::Random {
+                    cases: tier.pick(3, 30),
+                },
+                workers: 16,
+                build: Build::Normal,
+            },
         ]
     }
 
-    fn strategy(_leg: &str, tier: Tier) -> BoxedStrategy<Case> {
+    fn strategy(leg: &str, tier: Tier) -> BoxedStrategy<Case> {
+        if leg == "huge" {
+            return (gen::huge_wusize(3100), gen::raw_sources(), any::<u64>(), any::<u8>(), any::<u16>())
+                .prop_map(|((g, family), (raw, class), bits, tclass, pick)| {
+                    let sources = gen::sources_from(&raw, class, g.order);
+                    let mut targets = gen::subset_from(bits, tclass, pick, g.order);
+                    // far targets: the last vertices and one in the middle
+                    targets.push(g.order - 1);
+                    targets.push(g.order / 2);
+                    targets.sort_unstable();
+                    targets.dedup();
+                    Case { g, sources, targets, family }
+                })
+                .boxed();
+        }
         (
             gen::weighted_usize_big(tier.pick(12, 40)),
             gen::raw_sources(),
